@@ -930,7 +930,7 @@ Proof.
   pose proof (anyerr_false sh a ls NB) as AE.
   assert (Hin : In l ls) by (eapply nth_error_In; eassumption).
   unfold ranks_ok in OK. rewrite Forall_forall in OK. destruct (OK _ Hin) as [AD WF].
-  set (g := gsum_ranks sh a ls) in *.
+  remember (gsum_ranks sh a ls) as g eqn:Hg. clear Hg.
   unfold cret, exec. rewrite M. cbn [negb]. rewrite S.
   destruct a; cbn in DA; try discriminate DA; destruct l; cbn in AD; try discriminate AD; cbn [valid_local] in V.
   - (* getput *) destruct V as [E D]. unfold disp_err. rewrite (state_err_ok sh _ SO). cbn. rewrite E, D. cbn.
@@ -1011,7 +1011,7 @@ Proof.
   - (* _enddef *) destruct (s_mode sh); try reflexivity.
     destruct (g_min1 g =? 0); [|reflexivity]. destruct (g_min2 g =? 0); reflexivity.
   - (* metadata calls *) unfold meta_exec. rewrite E1, E2, S. cbn [Z.eqb negb].
-    destruct m0; cbn in RM; try discriminate RM;
+    match goal with x : metaapi |- _ => destruct x end; cbn in RM; try discriminate RM;
       cbn [metadesc_of md_ar1 md_bcs md_ar2 md_dbcs md_dar md_keep_own md_post md_header];
       rewrite ?andb_true_r; brk; reflexivity.
 Qed.
